@@ -78,6 +78,8 @@ impl SwiftField for Field71F {
     where
         Self: Sized,
     {
+        super::swift_utils::require_ascii(input, "Field 71F")?;
+
         if input.len() < 4 {
             return Err(ParseError::InvalidFormat {
                 message: format!(
@@ -136,6 +138,8 @@ impl SwiftField for Field71G {
     where
         Self: Sized,
     {
+        super::swift_utils::require_ascii(input, "Field 71G")?;
+
         if input.len() < 4 {
             return Err(ParseError::InvalidFormat {
                 message: format!(
